@@ -66,6 +66,7 @@ func c02Profiles(tier Tier) []*explore.Profile {
 			acts := supplyMenu(w, o)
 			acts = append(acts, freezeMenu(w, o, true)...)
 			acts = append(acts, lightTransfers(w, o)...)
+			acts = append(acts, forgedArrivals(w)...)
 			acts = append(acts, deliveries(w)...)
 			return acts
 		},
